@@ -1337,7 +1337,9 @@ fn utf8_decode(slice: &[u8]) -> char {
         code <<= 6;
         code |= (*byte as u32) & 63;
     }
-    unsafe { std::char::from_u32_unchecked(code) }
+    // automaton only validates the shape of the encoding, so encoded surrogates
+    // and values above U+10FFFF can still get here
+    std::char::from_u32(code).unwrap_or(std::char::REPLACEMENT_CHARACTER)
 }
 
 #[derive(Debug, Clone, Copy)]
